@@ -126,6 +126,19 @@ theorem rt_variant_array (env : Env) (hlim : env.limit = none) (hrec : RecOk enc
       exact ⟨prod32_of hp hal, by rw [← prodNat_eq]; exact hp, h2, fun d hd => (h4 d hd).1⟩
     · simp only [c, Bool.false_eq_true, if_false] at hdims
       omega
+  have hmis : dlen > 0 → ¬ dimsMismatch env (dims.getD []) alen = true := by
+    intro hpos
+    have hp := hprod hpos
+    unfold dimsMismatch
+    split
+    · have h1 : ¬ toInt32 alen < 0 := by rw [toInt32_alen hal]; omega
+      have h2 : (dims.getD []).foldl (· * ·) 1 = alen := by
+        have := hp.2.1
+        rw [← prodNat_eq] at this
+        exact this
+      have h3 : (toInt32 alen).toNat = alen := by rw [toInt32_alen hal]; simp
+      simp [h1, h2, h3]
+    · simp [hp.1]
   -- the encoder
   have henc : encVarValue encT (mask % 64) ⟨mask % 64, max 1 dlen⟩ value = .ok eb := by
     rw [encVarValue_eq _ _ _ t0]
@@ -171,16 +184,16 @@ theorem rt_variant_array (env : Env) (hlim : env.limit = none) (hrec : RecOk enc
     by_cases hd2 : dlen < 2
     · simp only [hd2, if_true] at hval
       subst hval
-      have hcheck : ¬ (dlen > 0 ∧ prod32 (dims.getD []) ≠ alen) := by
+      have hcheck : ¬ (dlen > 0 ∧ dimsMismatch env (dims.getD []) alen = true) := by
         intro hc
-        exact hc.2 (hprod hc.1).1
+        exact hmis hc.1 hc.2
       simp only [hcheck, if_false, hd2, if_true, hnil]
       have hmax : max 1 dlen = 1 := by omega
       rw [hmax, normArr_one]
       exact Reads.ret _
     · simp only [hd2, if_false] at hval
       have hp := hprod (by omega)
-      have hcheck : ¬ (dlen > 0 ∧ prod32 (dims.getD []) ≠ alen) := fun hc => hc.2 hp.1
+      have hcheck : ¬ (dlen > 0 ∧ dimsMismatch env (dims.getD []) alen = true) := fun hc => hmis hc.1 hc.2
       simp only [hcheck, if_false, hd2, hnil]
       have hmax : max 1 dlen = dlen := by omega
       rw [hmax]
